@@ -204,8 +204,8 @@ func (b *BundleAdd) MarshalBinary() (data []byte, err error) {
 	n += len(msgBytes)
 	if len(b.Properties) > 0 {
 		n = (n + 7) / 8 * 8
-		for _, property := range b.Properties {
-			propertyData, err := property.MarshalBinary()
+		for i := range b.Properties {
+			propertyData, err := b.Properties[i].MarshalBinary()
 			if err != nil {
 				return data, err
 			}
